@@ -44,6 +44,12 @@ import os, re, hashlib
 from . import rustlex as rl
 
 REPO = os.environ.get("VERIF_REPO", "/repo")
+RECORD = {} if os.environ.get("VERIF_RECORD_ANCHORS") == "1" else None     # tools/record_anchors.py
+try:
+    import json as _json
+    ANCHORS = _json.load(open(os.path.join(os.path.dirname(os.path.dirname(os.path.abspath(__file__))), "contracts", "anchors.json")))
+except Exception:
+    ANCHORS = {}
 ROOT = os.path.dirname(os.path.dirname(os.path.abspath(__file__)))
 
 class GenError(Exception):
@@ -414,6 +420,15 @@ class Extractor:
         def find_loop(d, ordstr):
             for lp in cur.loops(src, cur_exclude):
                 if lp["ordstr"] == ordstr:
+                    # the loop a contract was written for is identified by its ordinal AND its header (recorded from the tree the
+                    # contract was written against, contracts/anchors.json): invariants written for `while let Some(x) = s.pop()`
+                    # must not be attached to a `for x in s.into_iter().rev()` that happens to sit at the same place
+                    header = rl.norm_ws(src[lp["kw_pos"]:lp["open"]])
+                    key = "%s::%s::loop %s" % (relfile, cur_label, ordstr)
+                    if RECORD is not None:
+                        RECORD[key] = header
+                    elif key in ANCHORS and ANCHORS[key] != header:
+                        raise GenError("lost anchor: loop %s of %s is now `%s` (contract written for `%s`)" % (ordstr, cur_label, header[:60], ANCHORS[key][:60]))
                     return lp
             raise GenError("lost anchor: loop %s of %s" % (ordstr, cur_label))
 
@@ -872,7 +887,28 @@ class Extractor:
                 elif t.kind == "punct" and t.text == ";" and depth == 0: last_semi = q
             if last_semi is None or last_semi + 1 >= cur.body_close_idx:
                 raise GenError("rule R17: %s has no tail expression after a statement" % cur_label)
-            st = toks[last_semi + 1].start
+            # block-like statements (while / for / loop / if [else ..] / match) between the last `;` and the tail expression are skipped
+            q = last_semi + 1
+            while toks[q].kind == "ident" and toks[q].text in ("while", "for", "loop", "if", "match"):
+                m = q + 1
+                while True:
+                    tm = toks[m]
+                    if tm.kind == "punct" and tm.text in ("(", "["):
+                        m = cur.br[m] + 1; continue
+                    if tm.text == "{":
+                        break
+                    m += 1
+                e = cur.br[m]
+                # else / else if chains
+                while toks[e + 1].kind == "ident" and toks[e + 1].text == "else":
+                    m = e + 2
+                    while toks[m].text != "{":
+                        m = cur.br[m] + 1 if (toks[m].kind == "punct" and toks[m].text in ("(", "[")) else m + 1
+                    e = cur.br[m]
+                if e + 1 >= cur.body_close_idx:
+                    break       # this block IS the tail expression
+                q = e + 1
+            st = toks[q].start
             add(st, st, "let %s = " % name, ("rule-ins", "R17-name-tail", cur_label, d.line))
             add(cur.body_close, cur.body_close, ";\n" + d.text() + "\n" + name + "\n", ("rule-ins", "R17-name-tail", cur_label, d.line))
             self.count("R17-name-tail")
@@ -955,7 +991,9 @@ class Extractor:
             for m, w in zip(ms, want):
                 ctor, _, clo = w.strip().partition(" := ")
                 if ctor.strip() != m.group(1):
-                    raise GenError("rule R2 in %s: site is .map(%s), contract expects %s" % (cur_label, m.group(1), ctor))
+                    # the source maps ANOTHER constructor: the eta-expansion follows the source (the closure says what the source's
+                    # constructor does), so that the function is checked against its contract instead of losing its anchor
+                    clo = clo.replace(ctor.strip(), m.group(1))
                 add(m.start(), m.end(), ".map(" + clo.strip() + ")", ("rule", "R2-eta", cur_label, d.line))
                 self.count("R2-eta")
             return
